@@ -365,9 +365,7 @@ def _assume_option(fn, assumed):
         elif t["k"] == "call" and callee_of(t).rsplit("::", 1)[-1] in ("is_some", "is_none"):
             n = leaf_name(R.operand(t["args"][0]))
             if n in assumed:
-                be = bool_edges(fn, bi)
-                if be:
-                    sw, tr, fa = be
+                for sw, tr, fa in bool_switches(fn, bi):
                     val = (assumed[n] == 1) if callee_of(t).endswith("is_some") else (assumed[n] == 0)
                     removed.add((sw, fa if val else tr))
     return cfg_without_edges(fn, removed)
@@ -612,94 +610,58 @@ def const_signed_tree(t):
 
 
 def _state_table(f, R, inv_field, data_field):
-    """decode `let s = if let Some(i) = indices.<inv> {values[i]} else if indices.<data>.is_some() {A} else {B};`
-    followed by the == chain.  returns (value -> variant, defaults, error-arm present)."""
+    """decision table of one invalid-state attribute, however it is spelled (an `==` chain, a `match` on the value, a
+    helper returning the state).  returns (state value -> variant built, defaults {present, absent}, unknown values
+    are rejected)."""
     I = "arg1.indices."
-    # the state local: a local with three whole definitions: call to_i64 on values[indices.inv], and two constants
-    state = None
-    for n, ds in f.defs().items():
-        whole = [d for d in ds if not d[4]["proj"]]
-        if len(whole) < 3:
-            continue
-        kinds = []
-        for kind, payload, bi, si, place in whole:
-            if kind == "stmt":
-                t = strip(R.rvalue(payload))
-            else:
-                t = strip(R._call(payload, bi, 0, frozenset()))
-            kinds.append(t)
-        calls = [t for t in kinds if t[0] == "call" and t[1].endswith("to_i64") and (I + inv_field) in tree_str_names(t).split()]
-        consts = [const_signed_tree(t) for t in kinds if const_signed_tree(t) is not None]
-        if calls and len(consts) == 2:
-            state = (n, whole, consts)
-    if state is None:
-        return {}, {}, False
-    n, whole, consts = state
-    # defaults: which constant under data present / absent
-    dflt = {}
-    for kind, payload, bi, si, place in whole:
-        if kind != "stmt":
-            continue
-        c = const_signed_tree(R.rvalue(payload))
-        if c is None:
-            continue
-        for val, lab in ((1, "present"), (0, "absent")):
-            g = _assume_option(f, {I + inv_field: 0, I + data_field: val})
-            if bi in reach(g, [0]):
-                dflt[lab] = c
-    # chain: switches on Eq(state, k)
-    tab = {}
-    false_succ = None
-    target_adt_blocks = {}
+    # switches that test the state: the tested value reads values[indices.<inv_field>] through to_i64
+    tests = []
     for bi in f.cfg():
-        t = f.blocks[bi]["term"]
-        if t["k"] != "switch":
+        te = int_test_edges(f, R, bi)
+        if te is None:
             continue
-        dl = op_place(t["discr"])
-        if dl is None:
-            continue
-        # do not resolve through phi: look at the defining statement
-        ds = f.whole_defs(dl["local"])
-        if len(ds) != 1 or ds[0][0] != "stmt" or ds[0][1]["k"] != "binop" or ds[0][1]["op"] != "Eq":
-            continue
-        a, b = ds[0][1]["a"], ds[0][1]["b"]
-        pa = op_place(a)
-        if pa is None:
-            continue
-        # a is a copy of the state local
-        src = pa["local"]
-        dsrc = f.whole_defs(src)
-        root = src
-        if len(dsrc) == 1 and dsrc[0][0] == "stmt" and dsrc[0][1]["k"] == "use" and op_place(dsrc[0][1]["op"]):
-            root = op_place(dsrc[0][1]["op"])["local"]
-        if root != n:
-            continue
-        k = const_signed(b)
-        e = switch_edges(f, bi)
-        tr, fa = e["otherwise"], e.get("0")
-        tab[k] = _first_variant(f, tr, fa)
-        false_succ = fa if false_succ is None or find_path(f.cfg(), [false_succ], {bi}, set()) else false_succ
-    # error arm: the last false successor leads to Error::invalid without an Ok return
-    err = False
-    if tab:
-        lastk = max(tab)
-        for bi in f.cfg():
-            pass
-        # find the switch for lastk again
-        for bi in f.cfg():
-            t = f.blocks[bi]["term"]
-            if t["k"] == "switch":
-                dl = op_place(t["discr"])
-                ds = f.whole_defs(dl["local"]) if dl else []
-                if len(ds) == 1 and ds[0][0] == "stmt" and ds[0][1]["k"] == "binop" and ds[0][1]["op"] == "Eq" and const_signed(ds[0][1]["b"]) == lastk:
-                    pa = op_place(ds[0][1]["a"])
-                    root = pa["local"] if pa else None
-                    dsrc = f.whole_defs(root) if root is not None else []
-                    if len(dsrc) == 1 and dsrc[0][0] == "stmt" and dsrc[0][1]["k"] == "use" and op_place(dsrc[0][1]["op"]):
-                        root = op_place(dsrc[0][1]["op"])["local"]
-                    if root == n:
-                        fa = switch_edges(f, bi).get("0")
-                        err = f.ok_reachable(start=[fa]) is None
+        val, cases, others = te
+        names = tree_str_names(val).split()
+        if (I + inv_field) in names and any(x[0] == "call" and x[1].endswith("to_i64") for x in leaves(val)):
+            tests.append((bi, val, cases, others))
+    if not tests:
+        return {}, {}, False
+    tab = {}
+    test_blocks = {bi for bi, _, _, _ in tests}
+    for bi, val, cases, others in tests:
+        for k, succ in cases.items():
+            if k >= 1 << 63:
+                k -= 1 << 64
+            rest = [s_ for kk, s_ in cases.items() if s_ != succ] + [o for o in others if o != succ]
+            tab[k] = _first_variant(f, succ, rest)
+    # values outside the table: the `others` edges that do not continue with another test of the state
+    terminal = []
+    for bi, val, cases, others in tests:
+        for o in others:
+            if not any(tb in reach(f.cfg(), [o]) for tb in test_blocks if tb != bi and f.dominates(bi, tb)):
+                terminal.append(o)
+    err = bool(terminal) and all(f.ok_reachable(start=[o]) is None for o in terminal)
+    # defaults: constants that flow into the tested value, under attribute absent and data present / absent
+    discr_locals = {op_place(f.blocks[bi]["term"]["discr"])["local"] for bi in test_blocks}
+    dflt = {}
+    for n_, ds in f.defs().items():
+        for kind, payload, bi, si, place in ds:
+            if kind != "stmt" or place["proj"] or bi not in f.cfg():
+                continue
+            c = None
+            if payload["k"] == "use":
+                c = const_signed_tree(R.rvalue(payload))
+            elif is_variant_agg(payload, "result::Result", "Ok") and payload["ops"]:
+                c = const_signed_tree(R.operand(payload["ops"][0]))
+            if c is None:
+                continue
+            locs, _ = flows(f, n_)
+            if not (locs & discr_locals):
+                continue
+            for present, lab in ((1, "present"), (0, "absent")):
+                g = _assume_option(f, {I + inv_field: 0, I + data_field: present})
+                if bi in reach(g, [0]):
+                    dflt[lab] = c
     return tab, dflt, err
 
 
@@ -709,9 +671,10 @@ def tree_str_names(t):
 
 def _first_variant(f, start, other):
     """variant of the first enum aggregate (point::* or Option) built in the region reachable from
-    `start` but not from `other`."""
+    `start` but not from `other` (one block or a list of blocks)."""
     r1 = reach(f.cfg(), [start])
-    r2 = reach(f.cfg(), [other]) if other is not None else set()
+    others = other if isinstance(other, (list, tuple, set)) else ([other] if other is not None else [])
+    r2 = reach(f.cfg(), list(others)) if others else set()
     region = [b for b in sorted(r1 - r2)]
     # walk in BFS order from start inside the exclusive region
     order = []
